@@ -405,8 +405,11 @@ CtxResumeDecide ==    \* the first thing run() does: abandon an expired session,
          expiredRef == SessionExpired(g.sei, 1, IF age = "after" THEN 2 ELSE 0)
          expired == IF D("InvertedExpiry") /\ g.sei = "finite" THEN ~expiredRef ELSE expiredRef
      IN
-     /\ S' = IF expired THEN [InitS(Rmax, Msz) EXCEPT !.rx2 = S.rx2, !.loose = TRUE]
-              ELSE [S EXCEPT !.quota = Rmax, !.loose = TRUE]
+     \* an abandoned session starts with a full quota; in a resumed one the exchanges in flight keep their slots (their
+     \* packets are re-sent and are outstanding on the new connection too).  Deviation: the quota is reset to the
+     \* Receive Maximum on every CONNACK (what the code did before 9cb500e)
+     /\ S' = IF expired THEN [InitS(Rmax, Msz) EXCEPT !.rx2 = S.rx2]
+              ELSE IF D("QuotaResetOnResume") THEN [S EXCEPT !.quota = Rmax] ELSE S
      /\ ops' = IF expired
                THEN [o \in Ops |-> IF \E i \in 1..Len(S.await) : S.await[i].op = o THEN [ops[o] EXCEPT !.slot = <<Cancelled>>] ELSE ops[o]]
                ELSE ops
